@@ -22,6 +22,9 @@ Explained(ev) ==
           LET r == ev.hops["to_cedar"][h]
           IN IF ev.template THEN r = <<"none">> ELSE (r[1] = "ok" /\ r[2] = <<noId>>)
   /\ ev.template => (ev.hops["to_cedar"]["text_link"] = FALSE /\ ev.hops["to_cedar"]["json_link"] = FALSE)
+  \* the link taken on its own through the PST / JSON (from a text-built and from a PST-built set): same effect and condition
+  /\ ev.template => /\ "link" \in DOMAIN ev.hops /\ {"orig", "pst", "json", "set_pst", "set_pst_json", "set_pst_pst"} \subseteq DOMAIN ev.hops["link"]
+                    /\ \A h \in DOMAIN ev.hops["link"] : ev.hops["link"][h] = ev.hops["link"]["orig"]
   /\ IF ev.template
      THEN /\ ev.hops["proto"] = ev.p0
           /\ ev.hops["set_p0"].view.template = ev.p0
